@@ -859,6 +859,27 @@ def scan_guards(repo, consts, flags):
         r'already_seen\.push_back\(first_account_name\); result = find_account\(\(\*j\)\.second->fullname\(\) \+ name\.substr\(colon\)\); '
         r'name = result->fullname\(\); \} else \{ keep_expanding = false; \} \} else \{ keep_expanding = false; \} \} \} else \{ keep_expanding = false; \} '
         r'\} while ?\(keep_expanding && recursive_aliases\);', jc))
+    # journal.cc register_account: the payee look-up for "Unknown" accounts tests the posting AND its
+    # transaction before it reads post->xact->payee (postings of automated and periodic transactions,
+    # and the postings extend_xact generates, are registered with xact == NULL); Model/UnknownPayee.v
+    ra = re.search(r'account_t \* journal_t::register_account\(const string& name, post_t \* post, account_t \* master_account\) \{', jc)
+    g['unknown_payee_tests_post_and_xact'] = False
+    if ra:
+        body = jc[ra.end() - 1:match_brace(jc, ra.end() - 1)]
+        g['unknown_payee_tests_post_and_xact'] = bool(re.search(
+            r'if \(result->name == _\("Unknown"\)\) \{ foreach \(account_mapping_t& value, payees_for_unknown_accounts\) \{ '
+            r'if \(post && post->xact && value\.first\.match\(post->xact->payee\)\) \{ result = value\.second; break; \} \} \}', body)) \
+            and body.count('->xact') == 2 and body.count('payees_for_unknown_accounts') == 1
+    # unistring.h: the columns of a character are never negative where they are added up in a std::size_t
+    # (mk_wcwidth answers -1 for control characters); Model/Width.v.  False while the source adds the
+    # answer of mk_wcwidth as it is (F211).
+    try:
+        uh = norm(strip_comments(open(os.path.join(src, 'unistring.h'), errors='replace').read()))
+    except OSError:
+        uh = ''
+    g['unistring_width_clamps_negative'] = bool(re.search(
+        r'static std::size_t char_width\(boost::uint32_t ch\) \{ int w = mk_wcwidth\(ch\); return w < 0 \? 0 : static_cast<std::size_t>\(w\); \}', uh)) \
+        and uh.count('mk_wcwidth(') == 2 and 'width += char_width(ch);' in uh and 'std::size_t w = char_width(utf32chars[idx]);' in uh
     # the repairs proposed for F57, F58, F59 (false while they are not in the source)
     dc = norm(strip_comments(open(os.path.join(src, 'draft.cc'), errors='replace').read()))
     g['draft_cost_post_guard'] = bool(re.search(
@@ -1108,6 +1129,10 @@ def generate(repo):
           'Definition src_value_expr_reentry_guard : bool := %s.' % bl(g['value_expr_reentry_guard']),
           'Definition src_repetition_bound : bool := %s.' % bl(g['repetition_bound']),
           'Definition src_sort_empty_component_guard : bool := %s.' % bl(g['sort_empty_component_guard']),
+          '(* unistring.h: width() and extract_by_width() take a negative mk_wcwidth as 0 columns (Model/Width.v; false: F211 open) *)',
+          'Definition src_unistring_width_clamps_negative : bool := %s.' % bl(g['unistring_width_clamps_negative']),
+          '(* journal.cc register_account: `post && post->xact &&` before post->xact->payee is read (Model/UnknownPayee.v) *)',
+          'Definition src_unknown_payee_tests_post_and_xact : bool := %s.' % bl(g['unknown_payee_tests_post_and_xact']),
           '(* journal.cc expand_aliases: each branch records in already_seen the name it looked up (Model/Aliases.v) *)',
           'Definition src_alias_records_what_it_looks_up : bool := %s.' % bl(g['alias_records_what_it_looks_up']),
           '(* format.cc parse_elements `%$N`: template / index / null tests exactly as modelled in Model/FormatRef.v *)',
